@@ -592,7 +592,9 @@ TRUSTED = [
     "Coq 8.16.1 kernel and standard library",
     "harness/c02.py: translation of cases to rdflib calls and of rdflib results to numbers (terms.py numbering)",
     "the abstract Memory store of coq/Dataset/Model.v (quad set + union-only triples + known graph names) describes what "
-    "rdflib/plugins/stores/memory.py exposes to graph.py; tied by this correspondence run, the internals are property C01's",
+    "rdflib/plugins/stores/memory.py exposes to graph.py: tied by this correspondence run, and PROVED to be realised by C01's "
+    "Memory model (coq/Dataset/OverMemoryProofs.v: every store-level write simulated, every read enumerated, every history); "
+    "that C01's Memory model is memory.py is property C01's tie",
 ]
 ASSUMPTIONS = [
     "store is rdflib.plugins.stores.memory.Memory; one front-end object per history plus Graph(store, name) views",
